@@ -30,7 +30,7 @@ REQUIRED_REACH = ['format:html', 'format:json', 'format:xml', 'format:text', 'pl
                   'accept:malformed', 'accept:exact-distinct-q', 'accept:wildcard-q', 'debug-500-parsed', 'debug-404-parsed',
                   'canary-as-text:detail', 'canary-as-text:message', 'canary-as-text:error_type', 'canary-as-text:exc_value',
                   'canary-as-text:path', 'canary-as-text:header', 'canary-as-text:query', 'canary-as-text:local',
-                  'status-table-checked', 'instance-code-override', 'href-error-type', 'html-structure-checked', 'content-length-compared']
+                  'status-table-checked', 'instance-code-override', 'href-error-type', 'html-structure-checked', 'content-length-compared', 'handler-given-as-object', 'format-query-on-error', 'failing-request-with-upload']
 NSHARDS = 16
 
 STATUS_TABLE = {
@@ -334,23 +334,49 @@ class CustomErr(Exception):
 _apps = {}
 
 
-def app_for(kind):
+def app_for(kind, how='flag'):
+    if how != 'flag':
+        # the same two handlers, given to the application as objects (constructor argument, or installed afterwards)
+        key = (kind, how)
+        if key not in _apps:
+            from clastic import errors
+            from clastic import Application
+            h = errors.ContextualErrorHandler() if kind == 'debug' else errors.ErrorHandler()
+            if how == 'instance':
+                _apps[key] = Application(scenario_routes(), error_handler=h)
+            else:
+                _apps[key] = Application(scenario_routes())
+                _apps[key].set_error_handler(h)
+        return _apps[key]
     if kind not in _apps:
-        from clastic import Application, Route
+        from clastic import Application
+        _apps[kind] = Application(scenario_routes(), debug=(kind == 'debug'))
+    return _apps[kind]
+
+
+def scenario_routes():
+    if True:
+        from clastic import Route
         from clastic import render_basic, render_json
         routes = [Route('/err', ep_err), Route('/boom', ep_boom), Route('/only-get', lambda: None, methods=['GET']),
                   Route('/item/<name>/', ep_boom), Route('/only-post', lambda: None, methods=['POST', 'PUT']),
                   # the same endpoints on routes that have a renderer (it has no say over errors)
                   Route('/err-rendered', ep_err, render_basic), Route('/err-json', ep_err, render_json),
                   Route('/boom-rendered', ep_boom, render_basic)]
-        _apps[kind] = Application(routes, debug=(kind == 'debug'))
-    return _apps[kind]
+    return routes
 
 
 # ---- cases ------------------------------------------------------------------------------------------
 def gen_case(rng, n):
     kind = rng.pick(['class', 'class', 'class', 'class', '404', 'uncaught', 'uncaught', '405'])
     case = {'kind': kind, 'handler': rng.pick(['default', 'debug']), 'accept': rng.pick(ACCEPTS), 'n': n}
+    if rng.chance(0.3):
+        case['handler_how'] = rng.pick(['instance', 'set-later'])
+    if rng.chance(0.2):
+        # a query parameter that means something to the *renderers* of successful answers: error formats follow Accept
+        case['fmtq'] = rng.pick(['format=json', 'format=html', 'format=xml', 'format=text', 'format=', 'format=yaml', 'format=json&format=html'])
+    if kind == 'uncaught' and rng.chance(0.2):
+        case['upload'] = True     # the failing request carries an uploaded file
     if rng.chance(0.45):
         case['accept'] = rng.pick(['text/html', 'application/json', 'application/xml', 'text/html', '*/*'])
     if kind == 'class':
@@ -390,20 +416,29 @@ CLASSES = []
 
 def send(case):
     from urllib.parse import quote
-    app = app_for(case['handler'])
+    app = app_for(case['handler'], case.get('handler_how') or 'flag')
+    fq = case.get('fmtq') or ''
     headers = {}
     if case.get('accept') is not None:
         headers['Accept'] = case['accept']
     kind = case['kind']
     if kind == 'class':
-        return probe.request(app, 'GET', case.get('via', '/err'), headers=headers, token=case, trace=spies.new_trace())
+        return probe.request(app, 'GET', case.get('via', '/err'), fq, headers=headers, token=case, trace=spies.new_trace())
     if kind == '404':
-        return probe.request(app, 'GET', case['path'], case.get('query', ''), headers=headers, token=case)
+        return probe.request(app, 'GET', case['path'], '&'.join(x for x in (case.get('query', ''), fq) if x), headers=headers, token=case)
     if kind == '405':
-        return probe.request(app, case['method'], case.get('path405', '/only-get'), headers=headers, token=case)
+        return probe.request(app, case['method'], case.get('path405', '/only-get'), fq, headers=headers, token=case)
     headers['X-Canary'] = case['hdr'].encode('utf8').decode('latin-1')
     q = 'canary=' + quote(case['qv'], safe='')
     path = case['via'] if '%s' not in case['via'] else case['via'] % case['seg']
+    if fq:
+        q += '&' + fq
+    if case.get('upload'):
+        headers['Content-Type'] = 'multipart/form-data; boundary=vx7qboundary'
+        body = (b'--vx7qboundary\r\nContent-Disposition: form-data; name="note"\r\n\r\nhello\r\n'
+                b'--vx7qboundary\r\nContent-Disposition: form-data; name="attachment"; filename="report.txt"\r\n'
+                b'Content-Type: text/plain\r\n\r\nfile body\r\n--vx7qboundary--\r\n')
+        return probe.request(app, 'POST', path, q, headers=headers, body=body, token=case)
     return probe.request(app, 'GET', path, q, headers=headers, token=case)
 
 
@@ -423,6 +458,12 @@ def judge(sh, case, record=True):
         bad('content-length-differs-from-body', ex.length_problem())
         return
     sh.hit('content-length-compared')
+    if case.get('handler_how'):
+        sh.hit('handler-given-as-object')
+    if case.get('fmtq'):
+        sh.hit('format-query-on-error')
+    if case.get('upload'):
+        sh.hit('failing-request-with-upload')
     nontrivial = ex.status is not None and (ex.status >= 400 or kind == 'class')
     if record:
         canon = json.loads(re.sub(r'vx7q(attr|text)?\d+', 'vx7q', json.dumps(brief, default=repr)))
